@@ -484,6 +484,10 @@ def _await_descriptor_upload(tor_protocol, onion, progress, await_all_uploads):
                         ', '.join(failed_uploads),
                     )
                     uploaded.errback(RuntimeError(msg))
+                elif await_all and confirmed_uploads and not uploaded.called:
+                    # this failure may have been the last outstanding upload
+                    if (len(failed_uploads) + len(confirmed_uploads)) == len(attempted_uploads):
+                        uploaded.callback(onion)
 
     # the first 'yield' should be the add_event_listener so that a
     # caller can do "d = _await_descriptor_upload()", then add the
